@@ -72,7 +72,9 @@ impl<'a> VecOperator<'a> for UnfuseNullsI64 {
     fn outputs(&self) -> Vec<BufferRef<Any>> { vec![self.unfused.any()] }
     fn can_stream_input(&self, _: usize) -> bool { true }
     fn can_stream_output(&self, _: usize) -> bool { true }
-    fn can_block_output(&self) -> bool { true }
+    // The output's data is an alias of the streamed `fused` input and its null map is rebuilt for every chunk: both
+    // only ever hold the current chunk, so the operator cannot accumulate block output.
+    fn can_block_output(&self) -> bool { false }
     fn allocates(&self) -> bool { true }
 
     fn display_op(&self, _: bool) -> String {
